@@ -5,9 +5,12 @@ package main
 
 import (
 	"fmt"
+	"go/parser"
+	"go/token"
 	"math/rand"
 	"os"
 	"sort"
+	"strconv"
 	"strings"
 
 	"verifharness/hx"
@@ -290,6 +293,16 @@ func c06FuncJudge(c *Ctx, cases []*c06fCase, outs []*c06xOut) {
 			} else {
 				res.Dist("fn:refusal-line:another-line")
 			}
+			// "names the file and line": the line named must at least lie inside the declaration the refusal is about
+			if m := c06xLineRE.FindStringSubmatch(first); m != nil {
+				got, _ := strconv.Atoi(m[1])
+				if lo, hi, ok := c06fDeclSpan(src, cs.line); ok && (got < lo || got > hi) {
+					res.Violate(hx.Violation{Signature: "load:error-names-a-line-outside-the-declaration-it-is-about",
+						What:  fmt.Sprintf("the refusal of a construct at line %d (in the declaration at lines %d-%d of rules.go) names line %d", cs.line, lo, hi, got),
+						Input: in, Impl: clip(first), Spec: fmt.Sprintf("an error that names rules.go and a line in %d..%d", lo, hi)})
+					res.Dist("fn:refusal-line:OUTSIDE-THE-DECLARATION")
+				}
+			}
 		}
 		if !sampled && cs.mode == "wild" {
 			sampled = true
@@ -317,4 +330,20 @@ func c06fSeedCases() []*c06fCase {
 	add("257-string-constants", c06aHead+flt("\ts := ctx.Type.String()\n"+c06fRep(257, func(i int) string { return fmt.Sprintf("\tif s == \"k%d\" {\n\t\treturn true\n\t}\n", i) })+"\treturn false")+rule, false)
 	add("jump-over-3700-if-statements", c06aHead+flt("\ts := ctx.Type.String()\n\tfor s != \"\" {\n"+c06fRep(3700, func(i int) string { return "\t\tif s == \"k\" {\n\t\t\treturn true\n\t\t}\n" })+"\t}\n\treturn false")+rule, false)
 	return out
+}
+
+// c06fDeclSpan: the first and last line of the top-level declaration of src that contains line.
+func c06fDeclSpan(src string, line int) (lo, hi int, ok bool) {
+	fset := token.NewFileSet()
+	f, err := parser.ParseFile(fset, "rules.go", src, parser.SkipObjectResolution)
+	if err != nil || f == nil {
+		return 0, 0, false
+	}
+	for _, d := range f.Decls {
+		a, b := fset.Position(d.Pos()).Line, fset.Position(d.End()).Line
+		if a <= line && line <= b {
+			return a, b, true
+		}
+	}
+	return 0, 0, false
 }
